@@ -481,7 +481,7 @@ def _producer(trace, pi, oi):
         if o[0] in ('reset_all',) or (o[0] == 'reset_sel' and o[1] == op[1]):
             break
         if o[0] == 'select' and o[1] == op[1]:
-            prod = (a, b)
+            return (a, b)  # every selection (also with cache=False) writes the selection cache: the latest one produced it
     return prod
 
 
